@@ -1,3 +1,4 @@
+import CoapVerif.Generated.WaitShape
 /-!
 Model of the replaceable single consumer of the receive queue (C11):
 
@@ -141,7 +142,11 @@ def dispatch (s : State) (m : Msg) : State :=
   | .resp k => if s.sent.contains k then { s with delivered := k :: s.delivered } else s
   -- a response also acknowledges its request (RFC 7252 §5.2.2, the token closure of doInternal wakes the writer)
   | .sep k => if s.sent.contains k then { s with delivered := k :: s.delivered, acked := k :: s.acked } else s
-  | .note k => if s.sent.contains k then { s with delivered := k :: s.delivered } else s
+  -- a notification of an observation whose registration request is still waiting for its acknowledgement: `Conn.handle`
+  -- acknowledges by the response's token before it dispatches (repair of F42; regenerated fact, false = the shape before it)
+  | .note k => if s.sent.contains k then
+      { s with delivered := k :: s.delivered,
+               acked := if CoapVerif.Generated.WaitShape.handleAcknowledgesByToken then k :: s.acked else s.acked } else s
   | _ => s
 
 def progOf : MKind → List Act
